@@ -3,7 +3,7 @@ streams (harness arguments per tier) and the classification of each case."""
 
 # Which repairs of the pinned tree the model follows (must match the fix: commits in /repo;
 # known_findings.json records them as `fixed`).
-FIXES = {"f1": True, "f2": True, "f3": True, "f4": True, "f5": True, "f2b": True, "f8": True, "f10": True}
+FIXES = {"f1": True, "f2": True, "f3": True, "f4": True, "f5": True, "f2b": True, "f8": True, "f10": True, "f14": True}
 
 
 def pflags(extra):
@@ -297,6 +297,41 @@ def c11_streams(tier, seed):
             (["tok", "c11", str(seed), "60" if q else "1500"], tok2_classifier("C03", has_lattice_choice))]
 
 
+def conn_classify(line, impl, mobs, extra):
+    flags = pflags(extra)
+    t = line.split()
+    kind = t[3] if t[0] == "conn" else "-"
+    tags = ["stream=" + t[0], "kind=" + kind, "impl=" + impl.split()[0]]
+    if "K" in flags:
+        tags.append("K=" + flags["K"])
+    info = {"tags": tags, "nontrivial": impl.startswith("ok") or t[0] != "conn"}
+    if t[0] == "conn":
+        if impl.split()[0] in ("panic", "costpanic"):
+            info["prop_fail"] = "connector-panic"
+            info["why"] = "building or querying a bigram connector panicked"
+        elif flags.get("C07") == "0":
+            info["prop_fail"] = "cost-differs-from-defining-sum"
+            info["why"] = "a connector cost differs from the defining feature-pair sum of the property"
+    elif t[0] == "conn3":
+        if impl != "same":
+            info["prop_fail"] = "raw-dual-matrix-tokenize-differently"
+            info["why"] = "the same lexicon compiled with raw / dual / materialised matrix connector tokenizes differently: " + impl
+    elif t[0] == "scorer":
+        if flags.get("AVX2EQ") == "0":
+            info["corr_fail"] = "the AVX2 and portable accumulation models disagree"
+    return info
+
+
+def c07_streams(tier, seed):
+    q = tier == "quick"
+    c = conn_classify
+    return [(["conn", str(seed), "400" if q else "20000"], c),
+            (["scorer", str(seed), "400" if q else "20000"], c),
+            (["conn3", str(seed), "40" if q else "1500"], c),
+            (["conn", str(seed + 3), "150" if q else "5000"], c, {"avx2": True}),
+            (["conn3", str(seed + 3), "20" if q else "500"], c, {"avx2": True})]
+
+
 def simple_streams(name, nq, nt, classify):
     def streams(tier, seed):
         n = nq if tier == "quick" else nt
@@ -356,6 +391,24 @@ LATTICE_TB = [
 ]
 
 PROPS = {
+    "C07": {
+        "modules": ["Vibrato.Props.C07"],
+        "theorems": ["Vibrato.C07.find_base_terminates", "Vibrato.C07.build_slot_invariant", "Vibrato.C07.retrieve_build",
+                     "Vibrato.C07.retrieve_build_ofEntries", "Vibrato.C07.retrieve_invalid_left",
+                     "Vibrato.C07.raw_cost_eq_sum", "Vibrato.C07.raw_cost_eq_sum_fixed", "Vibrato.C07.dual_cost_eq",
+                     "Vibrato.C07.dual_eq_sum_of_fits", "Vibrato.C07.dual_eq_raw_of_fits",
+                     "Vibrato.C07.dual_pinned_panics_below_8", "Vibrato.C07.avx2_eq_scalar",
+                     "Vibrato.C07.raw_cost_deviates_pinned", "Vibrato.C07.dual_deviates_pinned",
+                     "Vibrato.C07.raw_from_readers_empty_panics"],
+        "streams": c07_streams,
+        "rule": "bigram models with 0..20 templates (biased to 0-2, 7-9, 15-17), ragged rows, shared and quoted feature strings, "
+                "BOS/EOS lines, the (empty, empty) pair listed in a third of the models, rare malformed edits; every cost(r,l) of "
+                "raw and dual connectors (portable and AVX2 builds) compared with the model and with the defining sum; scorer "
+                "arrays compared exactly on random key sets; raw/dual/materialised-matrix dictionaries tokenized side by side",
+        "trusted_base": ["AVX2 intrinsics modelled lane-wise (masked gathers, signed compares); behaviour of the intrinsics trusted + differential AVX2 build",
+                         "hashbrown iteration order in the dual connector's greedy template split modelled as an arbitrary split (theorems hold for every valid split)"],
+        "assumptions": ["pre-summed part within i16 (hypothesis of dual_eq_raw_of_fits; generated costs are far inside)"],
+    },
     "C03": {
         "modules": ["Vibrato.Props.C03"],
         "theorems": ["Vibrato.lex_candidates_spec", "Vibrato.genUnk_spec", "Vibrato.unkOf_spec", "Vibrato.unkOfRows_order",
